@@ -65,7 +65,21 @@ def judge_renumbering(smiles, rnd, n):
             got = f.is_functional_group(m2, name, new_of_old[idx])
             if got != want:
                 return "%s: atom %d (%s) is '%s' = %r, but %r after renumbering %r" % (smiles, idx, m.GetAtomWithIdx(idx).GetSymbol(), name, want, got, perm)
+            # the same question the way the merge / expansion rules ask it: about the neighbour atom of a boundary
+            got2 = via_rule_property(m2, name, new_of_old[idx])
+            if got2 != want:
+                return ("%s: atom %d (%s) is '%s' = %r, but the rules' FunctionalGroupProperty says %r for the same atom at index %d after renumbering %r"
+                        % (smiles, idx, m.GetAtomWithIdx(idx).GetSymbol(), name, want, got2, new_of_old[idx], perm))
     return None
+
+
+def via_rule_property(src_mol, group, neighbor_index):
+    """FunctionalGroupProperty.check on a boundary whose neighbour atom (in the source molecule) is the atom asked about"""
+    from synrbl.SynMCSImputer.rules import FunctionalGroupProperty
+    from synrbl.SynMCSImputer.structure import Compound
+    c = Compound("C", src_mol=src_mol)
+    b = c.add_boundary(0, symbol="C", neighbor_index=neighbor_index)
+    return bool(FunctionalGroupProperty(group).check(b, group))
 
 
 def judge_matches(smiles, pats):
@@ -98,6 +112,9 @@ def replay(d):
 
 def check(run):
     run.level = "other"
+    # deductive part: the way the merge / expansion rules ask the question (FunctionalGroupProperty.check): exactly the recogniser's
+    # answer for the boundary's neighbour atom, for every index
+    run.deductive(["contracts.rules_props"])
     run.explanation = ("bounded stand-in: pattern_match is a recursive search over neighbour permutations of RDKit atom objects with per-branch visited lists; "
                        "the real is_functional_group / pattern_match are compared under atom renumbering and against RDKit's substructure search on a family of "
                        "small molecules (rings, aromatics, every supported group) and corpus molecules")
